@@ -56,6 +56,43 @@ fn dispatch_check(id: &str) -> Option<CheckFn> {
     table(id).map(|t| t.1)
 }
 
+/// run one check in a child process of this binary and pass its output and exit code through; a child that dies of a
+/// signal or of an uncaught panic (exit code 101) is a violation whose replay file records the crash
+fn isolated(id: &str, tier: Tier, seed: u64) -> i32 {
+    use props::c20::{run_child_passthrough, Passthrough};
+    let tier_s = if tier == Tier::Quick { "quick" } else { "thorough" };
+    let timeout = if tier == Tier::Quick { 3_000 } else { 6 * 3_600 };
+    let seed_s = seed.to_string();
+    let crash = |what: String, out: &str| -> i32 {
+        print!("{}", out);
+        let dir = driver::verif_root().join("replays").join(id);
+        let _ = std::fs::create_dir_all(&dir);
+        let replay = dir.join("crash.json");
+        let mut c = Case::new(id, "crash", &grammar::G::Empty, &[]);
+        c.extra = serde_json::json!({ "what": what, "tier": tier_s, "seed": seed });
+        let _ = std::fs::write(&replay, serde_json::to_string_pretty(&c).unwrap());
+        println!("the process running check {} {}", id, what);
+        println!("VIOLATION property={} replay={}", id, replay.display());
+        1
+    };
+    match run_child_passthrough(&["checkrun", id, tier_s, &seed_s], timeout, 0, &[("CV_INNER", "1")]) {
+        Passthrough::Exited(101, out) => crash("panicked outside the places where panics are caught (a library call outside parse / check, e.g. while building a parser; the message is in the output above)".into(), &out),
+        Passthrough::Exited(code, out) => {
+            print!("{}", out);
+            code
+        }
+        Passthrough::Signal(sig, out) => crash(format!("was killed by signal {} (memory error / stack overflow / abort)", sig), &out),
+        Passthrough::Timeout => {
+            println!("INCONCLUSIVE property={} watchdog: the check did not finish within {} s", id, timeout);
+            2
+        }
+        Passthrough::Failed(m) => {
+            println!("INCONCLUSIVE property={} {}", id, m);
+            2
+        }
+    }
+}
+
 fn main() {
     run::install_panic_hook();
     let args: Vec<String> = std::env::args().collect();
@@ -70,6 +107,12 @@ fn main() {
                 _ => Tier::Quick,
             };
             let seed = seed_from_env();
+            // every check runs in a child process (C20 isolates itself): a crash of the process under test -- a signal
+            // (memory error, stack overflow, abort) or a panic outside the places where panics are expected and caught
+            // (e.g. while a parser is being BUILT) -- is reported as a violation instead of taking the check down
+            if std::env::var("CV_INNER").is_err() && id != "C20" && table(id).is_some() {
+                std::process::exit(isolated(id, tier, seed));
+            }
             let code = match table(id) {
                 Some((run, _)) => run(tier, seed),
                 None => {
@@ -84,6 +127,10 @@ fn main() {
             let num = |i: usize| a.get(i).and_then(|x| x.parse::<u64>().ok()).unwrap_or(0);
             let code = match a[0] {
                 "leftrec" => props::c11::leftrec_worker(num(1) as usize, num(2), num(3)),
+                "checkrun" => match table(a[1]) {
+                    Some((run, _)) => run(if a[2] == "thorough" { Tier::Thorough } else { Tier::Quick }, num(3)),
+                    None => 2,
+                },
                 "c20run" => props::c20::run_inner(if a[1] == "thorough" { Tier::Thorough } else { Tier::Quick }, num(2)),
                 "depth" => props::c12::depth_worker(a[1], a[2], a[3], num(4) as usize, num(5) == 1),
                 _ => 2,
@@ -122,6 +169,10 @@ fn main() {
                 eprintln!("unknown property {}", case.prop);
                 std::process::exit(2)
             };
+            if case.sub == "crash" && case.prop != "C20" {
+                println!("replaying {}: a recorded crash of the check's process; re-running the quick tier", case.prop);
+                std::process::exit(isolated(&case.prop, Tier::Quick, seed_from_env()));
+            }
             let mut l = Local::default();
             println!("replaying {} ({}): {}", case.prop, case.sub, grammar::render(&case.g));
             println!("  input: {:?}", case.input);
